@@ -53,8 +53,12 @@ func (P *Program) genVC(fn *ssa.Function, opts genOpts) (vc *VC) {
 		f.st = entry
 		a0 := entry.get("$alloc", SBV64)
 		vc.assumeGlobal(mkAnd(ule(bvLit(64, 1<<34), a0), ult(a0, bvLit(64, 1<<60))))
-		for _, p := range fn.Params {
-			t := vc.declare("p$"+p.Name(), vc.tt.sortOf(p.Type()))
+		for i, p := range fn.Params {
+			pn := p.Name()
+			if pn == "_" || pn == "" {
+				pn = fmt.Sprintf("_%d", i)
+			}
+			t := vc.declare("p$"+pn, vc.tt.sortOf(p.Type()))
 			f.vals[p] = t
 			vc.assumeGlobal(vc.tt.typeInv(t, p.Type(), a0))
 		}
